@@ -67,6 +67,55 @@ CHECKS.update({
         note="sqlite WAL atomicity/durability under process kill is trusted; kills land between statements, not inside a write."),
 })
 
+CHECKS.update({
+    "C02": dict(
+        category="model_checking", design_ref="DESIGN.md section 4, C02",
+        technique="TLA+ reference codec Wire.tla (written from doc/reference/serialization.rst, all 44 packers, table of all 66 "
+                  "Serializable classes) checked by TLC (RoundTrip, ExactConsumption, ReEncode, PrefixFree); TLC-enumerated "
+                  "(format/class, value, offset) states executed on the real Serializer; recorded pack/unpack/repack events "
+                  "validated by TLC (WireTrace.tla)",
+        text="The bytes are computed by the TLA+ reference, not by the implementation: every shipped message class (also nested and "
+             "listed, offsets 0..3) and every packer over boundary domains is compared byte for byte, field for field and offset "
+             "for offset; a class or packer missing from the table makes the check fail as machinery error.",
+        note="IEEE-754 layout of f/d and arbitrary Unicode not modelled. Known finding: arrayH-* use host byte order (see known_findings.json)."),
+    "C07": dict(
+        category="model_checking", design_ref="DESIGN.md section 4, C07",
+        technique="TLA+ spec TunnelEndpoint.tla (abstract StepAllowed layer + implementation layer) model-checked by TLC to depth 7/8; "
+                  "all paths / transition cover / simulated behaviours replayed on the real TunnelEndpoint with a real "
+                  "TunnelCommunity and real Circuit objects; recorded histories validated by TLC",
+        text="Every interleaving of the quantifier's events to depth 7 is explored on the spec; all 3-event paths, a cover of the "
+             "4-event graph and long simulated behaviours are executed on the real objects with exact state comparison; the "
+             "abstract layer (never raw for anonymised prefixes, only ready right-length IPv8-exit circuits, bounded queue) judges.",
+        note="Circuits reach their states through add_hop/close on real objects, not through a network handshake."),
+    "C11": dict(
+        category="model_checking", design_ref="DESIGN.md section 4, C11",
+        technique="TLA+ specs TaskManager.tla (replayed edge-complete on the real TaskManager under a single-stepped loop) and "
+                  "Unload.tla (model-checked; listener tables of both wirings, tasks, caches, sockets); unload requested at sampled "
+                  "(thorough: every) event of scripted runs of all 9 overlay classes on the simulated network under virtual time, "
+                  "late datagrams of every message id + 2 h; event logs validated by TLC (UnloadTrace.tla)",
+        text="Silence after unload is decided by TLC on recorded executions of the real overlays (sends, handler entries, task "
+             "steps, cache time-outs, outside sockets) with the unload point enumerated; the task-manager clauses are decided by "
+             "exhaustive replay of the spec's state graph on the real TaskManager.",
+        note="Only sends on the simulated wire / outside transports are seen; events while unload() is still running are unconstrained."),
+    "C17": dict(
+        category="model_checking", design_ref="DESIGN.md section 4, C17",
+        technique="TLA+ specs Identity.tla / IdentityWorld.tla model-checked by TLC (consent, storage, token hand-out invariants); "
+                  "state graphs and simulated behaviours replayed on a real IdentityCommunity node with real signed objects from "
+                  "honest and dishonest peers; recorded sessions validated by TLC (IdentityTrace.tla)",
+        text="TLC explores registrations x disclosures x clock x permissions; every transition is executed on the real node and the "
+             "datagrams it emits, its Attestations/Metadata rows and token trees are compared with the TLC state; SignsOnlyConsented, "
+             "StoresOnlyValidlySigned, TokensOnlyUpToPermitted are evaluated on every recorded session.",
+        note="Only well-formed messages; 299 s and 301 s sides of the window, not the exact instant."),
+    "C20": dict(
+        category="translation_validation", design_ref="DESIGN.md section 4, C20",
+        technique="TLA+ spec PayloadDef.tla (extends Wire.tla) enumerates payload definitions (fields, defaults, fix_pack/unpack rules, "
+                  "calling conventions) and computes bytes/decoded values; each definition is materialised as plain, vp_compile'd and "
+                  "dataclass form and compared; all shipped VariablePayload classes in shipped/re-interpreted/recompiled form",
+        text="Translation validation of the payload code generator against the interpreted definition with the TLA+ meaning as "
+             "third opinion, exhaustive over definitions of <=2 (thorough 3) fields over 13 field kinds, simulated up to 12 fields.",
+        note="Generated field names only; dataclass default_factory outside the explored space."),
+})
+
 PENDING_REASON = "check not built yet in this round (planned, see DESIGN.md section 9); no claim is made"
 
 
